@@ -634,7 +634,12 @@ func (p *sessionPort) exec(f []string) []string {
 			default:
 				// the store let the Save through and every goroutine is at rest: the publish is stuck
 				p.dead = "pal"
-				out = append(out, "hang "+p.slowName)
+				if p.atGate() {
+					// it went on into a conn.Write the script stalls: not stuck by itself
+					out = append(out, "stalled "+p.slowName)
+				} else {
+					out = append(out, "hang "+p.slowName)
+				}
 			}
 		}
 		return out
